@@ -234,6 +234,22 @@ def run_public(case):
         df = oqupy.compute_dynamics_with_field(mfs, 0.3 + 0.1j, [pt], initial_state_list=[rho0], start_time=start,
                                                progress_type="silent")
         _check_axis(out, "compute_dynamics_with_field", df.times, start, dt, n)
+        # zero whole steps: the axis is the start time alone, in every routine that takes num_steps
+        for ra in (True, False):
+            d0 = oqupy.compute_dynamics(system, rho0, process_tensor=pt, start_time=start, num_steps=0, record_all=ra,
+                                        progress_type="silent")
+            _check_axis(out, "compute_dynamics/zero-steps", d0.times, start, dt, 0)
+            f0 = oqupy.compute_dynamics_with_field(mfs, 0.3 + 0.1j, [pt], initial_state_list=[rho0], start_time=start,
+                                                   num_steps=0, record_all=ra, progress_type="silent")
+            _check_axis(out, "compute_dynamics_with_field/zero-steps", f0.times, start, dt, 0)
+            if len(f0.fields) != 1 or abs(complex(f0.fields[0]) - (0.3 + 0.1j)) > 1e-15:
+                out.fail("compute_dynamics_with_field/zero-steps/field", f"fields {list(f0.fields)!r}")
+        dc = oqupy.compute_dynamics(system, rho0, dt=dt, num_steps=min(n, 5), start_time=start, progress_type="silent")
+        _check_axis(out, "compute_dynamics/no-process-tensor", dc.times, start, dt, min(n, 5))
+        dc1 = oqupy.compute_dynamics(system, rho0, dt=dt, num_steps=min(n, 5), start_time=start, record_all=False,
+                                     progress_type="silent")
+        if len(dc1.times) != 1 or abs(dc1.times[0] - (start + min(n, 5) * dt)) > 4 * np.spacing(max(abs(start + min(n, 5) * dt), 1.0)):
+            out.fail("compute_dynamics/no-process-tensor/record_all=False/label", f"times {list(dc1.times)!r}")
         df1 = oqupy.compute_dynamics_with_field(mfs, 0.3 + 0.1j, [pt], initial_state_list=[rho0], start_time=start,
                                                 record_all=False, progress_type="silent")
         want = start + n * dt
